@@ -165,6 +165,9 @@ func (c03) Gen(tier string, seed int64) []fw.Unit {
 	for _, q := range azBoundaryReqs(r, tier == "thorough", false) {
 		us = append(us, q.Unit("aztec", "capacity-boundary"))
 	}
+	us = append(us, collideUnits(r, "aztec", "aztec", printAB, 24, 33, 0)...)
+	us = append(us, collideUnits(r, "aztec", "aztec", []byte("ABCDEFGHIJKLMNOPQRSTUVWXYZ0123456789-/"), 24, 23, 0)...)
+	us = append(us, collideUnits(r, "aztec", "aztec", allAB, 32, 33, 0)...)
 	// random bytes
 	for i := 0; i < 100*scale; i++ {
 		n := 1 + r.Intn(80)
@@ -179,6 +182,9 @@ func (c03) Gen(tier string, seed int64) []fw.Unit {
 func aztecObserve(c *fw.Ctx, req Req) (*refdec.AztecResult, bool) {
 	inner := req.String()
 	c.Step(func() string { return inner })
+	if c.Res().Evals%7 == 0 {
+		poison("aztec", false)
+	}
 	o := req.call()
 	if !wellFormed(c, req.entryName(), inner, &o) {
 		if o.err != nil {
@@ -206,7 +212,16 @@ func aztecObserve(c *fw.Ctx, req Req) (*refdec.AztecResult, bool) {
 }
 
 func (p c03) Exec(c *fw.Ctx, u *fw.Unit) {
-	req := reqOfUnit(u)
+	if isCollide(u) {
+		for _, q := range splitCollide(u) {
+			p.one(c, q, u.Tag)
+		}
+		return
+	}
+	p.one(c, reqOfUnit(u), u.Tag)
+}
+
+func (p c03) one(c *fw.Ctx, req Req, tag string) {
 	c.Eval()
 	res, ok := aztecObserve(c, req)
 	if !ok {
@@ -238,7 +253,7 @@ func (p c03) Exec(c *fw.Ctx, u *fw.Unit) {
 	for k := range res.Features {
 		c.Cover("decode_feature", k)
 	}
-	c.Cover("tag", u.Tag)
+	c.Cover("tag", tag)
 	if req.int(1) != 0 {
 		c.Cover("explicit_request", fmt.Sprint(req.int(1)))
 	}
